@@ -5,7 +5,7 @@
 From Coq Require Import String.
 Require Import OV.Base.Bytes OV.Base.Py OV.Base.PyInt OV.Base.Str.
 Require Import OV.Model.C14_Py OV.Gen.C14 OV.Model.C14.
-Require Import OV.Proofs.C14 OV.Proofs.C14_Str OV.Proofs.C14_Int OV.Proofs.C14_Bool OV.Proofs.C14_Num OV.Proofs.C14_Uuid OV.Proofs.C14_Words OV.Proofs.C14_Examples.
+Require Import OV.Proofs.C14 OV.Proofs.C14_Str OV.Proofs.C14_Int OV.Proofs.C14_Bool OV.Proofs.C14_Num OV.Proofs.C14_Uuid OV.Proofs.C14_Words OV.Proofs.C14_Examples OV.Proofs.C14_IntGrammar OV.Proofs.C14_Final.
 Open Scope Z_scope.
 
 (* ---------------- the tie to the source ---------------- *)
@@ -96,6 +96,37 @@ Theorem C14_is_valid_boolstr_bool : forall lim b, is_valid_boolstr lim (PBool b)
 Proof. exact is_valid_boolstr_bool. Qed.
 Print Assumptions C14_is_valid_boolstr_bool.
 
+(* for ALL strings: valid exactly when str.lower() of the text is in the generated tuples (also on the translated source) *)
+Theorem C14_is_valid_boolstr_all : forall lim s,
+  (is_valid_boolstr lim (PStr s) = Ok true <-> In (py_lower s) (TRUE_STRINGS ++ FALSE_STRINGS)) /\
+  (is_valid_boolstr lim (PStr s) = Ok false <-> ~ In (py_lower s) (TRUE_STRINGS ++ FALSE_STRINGS)) /\
+  (gen_is_valid_boolstr lim (PStr s) = is_valid_boolstr lim (PStr s)).
+Proof. exact is_valid_boolstr_all. Qed.
+Print Assumptions C14_is_valid_boolstr_all.
+
+(* ... which, lower() adding nothing to ASCII on word characters, means: an ASCII-case variant of a word, no padding *)
+Theorem C14_is_valid_boolstr_iff_case_variant : forall lim s,
+  is_valid_boolstr lim (PStr s) = Ok true <-> exists w, In w all_words /\ lower_ascii s = w.
+Proof. exact is_valid_boolstr_iff. Qed.
+Print Assumptions C14_is_valid_boolstr_iff_case_variant.
+
+(* ---------------- the integer literal grammar of int() ---------------- *)
+(* int(s) = z  <->  s = whitespace* [+-]? digits (_ digits)* whitespace*  (int()'s whitespace, Unicode decimal
+   digits, at most lim digits) with value z — both directions, every string *)
+Theorem C14_int_parse_iff_literal : forall lim s z,
+  int_parse lim 10 s = Some z <->
+  exists pre sg ds post,
+    s = pre ++ sign_text sg ++ join [95%N] ds ++ post /\
+    forallb int_space pre = true /\ forallb int_space post = true /\
+    ugroups ds = true /\ over_limit lim (blen (concat ds)) = false /\
+    z = signed sg (uval (concat ds) 0).
+Proof. exact int_parse_iff_literal. Qed.
+Print Assumptions C14_int_parse_iff_literal.
+
+Theorem C14_int_parse_rejects : forall lim s, int_parse lim 10 s = None <-> forall z, ~ int_literal lim s z.
+Proof. exact int_parse_none_iff. Qed.
+Print Assumptions C14_int_parse_rejects.
+
 (* ---------------- is_int_like ---------------- *)
 (* a string is int-like exactly when it is the canonical decimal rendering of an integer *)
 Theorem C14_is_int_like_str : forall lim s,
@@ -136,6 +167,30 @@ Theorem C14_validate_integer_ok : forall lim v lo hi z,
 Proof. exact validate_integer_ok. Qed.
 Print Assumptions C14_validate_integer_ok.
 
+(* in terms of the declarative grammar, on the TRANSLATED source *)
+Theorem C14_validate_integer_literal : forall lim v lo hi z,
+  gen_validate_integer lim v lo hi = Ok z <->
+  (exists s, py_str lim v = Ok s /\ int_literal lim s z) /\
+  (forall m, lo = Some m -> m <= z) /\ (forall m, hi = Some m -> z <= m).
+Proof. exact gen_validate_integer_literal. Qed.
+Print Assumptions C14_validate_integer_literal.
+
+Theorem C14_validate_integer_rejects : forall lim v lo hi,
+  validate_integer lim v lo hi = Exn ValueError <->
+  ~ exists z, (exists s, py_str lim v = Ok s /\ int_literal lim s z) /\
+              (forall m, lo = Some m -> m <= z) /\ (forall m, hi = Some m -> z <= m).
+Proof. exact validate_integer_rejects. Qed.
+Print Assumptions C14_validate_integer_rejects.
+
+(* None / 0 bounds on the translated source: None imposes nothing, 0 is a bound like any other *)
+Theorem C14_validate_integer_corners : forall lim v z, int_of_text lim v = Some z ->
+  gen_validate_integer lim v None None = Ok z /\
+  gen_validate_integer lim v (Some 0) None = (if z <? 0 then Exn ValueError else Ok z) /\
+  gen_validate_integer lim v None (Some 0) = (if z >? 0 then Exn ValueError else Ok z) /\
+  gen_validate_integer lim v (Some 0) (Some 0) = (if z =? 0 then Ok z else Exn ValueError).
+Proof. exact gen_validate_integer_corners. Qed.
+Print Assumptions C14_validate_integer_corners.
+
 (* and ValueError in every other case *)
 Theorem C14_validate_integer_otherwise : forall lim v lo hi,
   (exists z, validate_integer lim v lo hi = Ok z) \/ validate_integer lim v lo hi = Exn ValueError.
@@ -168,6 +223,26 @@ Theorem C14_check_string_length : forall v mn mx,
    check_string_length v mn mx = Exn ValueError).
 Proof. exact check_string_length_spec. Qed.
 Print Assumptions C14_check_string_length.
+
+(* the same three-way characterisation on the TRANSLATED source, and the max_length None / 0 corners *)
+Theorem C14_check_string_length_translated : forall lim v mn mx,
+  (gen_check_string_length lim v mn mx = Ok tt <->
+     exists s, v = PStr s /\ mn <= zlen s /\ (forall m, mx = Some m -> m = 0 \/ zlen s <= m)) /\
+  (gen_check_string_length lim v mn mx = Exn TypeError <-> is_str v = false) /\
+  (gen_check_string_length lim v mn mx = Exn ValueError <->
+     exists s, v = PStr s /\ (zlen s < mn \/ exists m, mx = Some m /\ m <> 0 /\ m < zlen s)) /\
+  (gen_check_string_length lim v mn mx = Ok tt \/ gen_check_string_length lim v mn mx = Exn TypeError \/
+   gen_check_string_length lim v mn mx = Exn ValueError).
+Proof. exact gen_check_string_length_spec. Qed.
+Print Assumptions C14_check_string_length_translated.
+
+Theorem C14_check_string_length_corners : forall lim s mn, mn <= zlen s ->
+  gen_check_string_length lim (PStr s) mn None = Ok tt /\
+  gen_check_string_length lim (PStr s) mn (Some 0) = Ok tt /\
+  gen_check_string_length lim (PStr s) mn (Some (zlen s)) = Ok tt /\
+  (0 < zlen s -> gen_check_string_length lim (PStr s) mn (Some (zlen s - 1)) = if zlen s =? 1 then Ok tt else Exn ValueError).
+Proof. exact gen_check_string_length_corners. Qed.
+Print Assumptions C14_check_string_length_corners.
 
 (* ---------------- is_uuid_like / generate_uuid ---------------- *)
 (* accepted exactly when, decoration removed as the code removes it, 32 hex digits remain *)
